@@ -16,18 +16,40 @@ class C02(Property):
     lean_module = "RosuModel.Props.C02"
     namespace = "Rosu.C02"
     design_ref = "5.2"
-    required_theorems = ["trim_cons_space", "kvSplit_kvLine"]
+    required_theorems = ["trim_cons_space", "kvSplit_kvLine", "kv_line_roundtrip", "int_display_parse", "int_display_clean",
+                         "metadata_block_roundtrip", "colours_block_roundtrip", "colours_block_roundtrip_decoded",
+                         "editor_block_roundtrip", "difficulty_block_roundtrip", "general_block_roundtrip", "events_block_roundtrip",
+                         "laws_satisfiable", "records_roundtrip", "circle_rt", "spinner_rt", "hold_rt", "samples_bank_info_rt", "samples_rt"]
     partial_theorems = {
-        "roundtrip": "proved so far: the line-level inverse for key/value framing (kvSplit_kvLine: the value text, further colons and `//` included, is recovered up to trim). "
-                     "The section-level and map-level round trips (layers 2–6 of DESIGN 5.2) are not yet theorems; they are evaluated on the implementation by the `rt` oracle "
-                     "(preserved view compared field by field, floats by bits, curves included, ≤4 ulp only for slider velocity) and on the model by the three-way `rt` correspondence "
-                     "(M1, text, M2 all identical between model and code)",
+        "editor_block_roundtrip / difficulty_block_roundtrip / general_block_roundtrip / events_block_roundtrip / records_roundtrip":
+            "law-dependent: proved for every number codec satisfying CodecLaws (parse(print x) = x on the representable values; printed numbers are non-empty and made of "
+            "number characters only) and, for AudioLeadIn, IntPrintLaw (integral values print like integers). The laws are shown satisfiable by the toy codec of Lemmas/ToyCodec.lean "
+            "(laws_satisfiable); that Rust's Display/FromStr for f32/f64 satisfy them is not proved (recorded assumption, exercised by lib/codecgen.py). metadata_block_roundtrip and "
+            "colours_block_roundtrip need no law (integers: int_display_parse is proved of the model's own i32/u32/u8 codec)",
+        "records_roundtrip": "file level for the six record sections only (format version, general on the preserved view, editor, metadata with positive ids, difficulty, background/breaks, "
+            "colours with alpha 255): the re-decoded Beatmap has these fields equal to the original's. It assumes of the [TimingPoints] and [HitObjects] blocks only their shape "
+            "(LF-terminated lines that are neither headers nor skipped: RtFile.ListBlockShape) — whatever those lines do, they do not touch the record fields",
+        "circle_rt / spinner_rt / hold_rt": "law-dependent, one line at a time (any decoder state): the line written for a circle / spinner / hold note decodes to the same kind of object with the "
+            "same start time, position (integral coordinates; a spinner's position is not carried), combo data (new_combo or-ed with the decoder's forcing rule) and duration. The duration "
+            "goes through an arithmetic inverse (max(end − start, 0) resp. max(start, end) − start), taken as a hypothesis on the two values — exact in exact arithmetic, not proved for IEEE. "
+            "The samples come back as convert_sound_type of the same hit-sound byte and the rebuilt bank info (samples_bank_info_rt, no law needed); samples_rt shows that this "
+            "reproduces names and banks for sample lists in the decoder's own shape (Normal-with-bank or custom file first, then finish/whistle/clap sharing a specified addition bank) — "
+            "that every decoded map's lists have this shape is not proved here",
+        "roundtrip": "NOT yet theorems (only `def roundtrip_statement : Prop`): slider lines (path strings, node samples), timing points and the "
+            "effective SV/kiai/scroll timelines (layer 5 of DESIGN 5.2), the assembly over all objects of a map, and therefore the property as a whole. These are evaluated on the implementation by the `rt` oracle "
+            "(preserved view compared field by field, floats by bits, curves included, ≤4 ulp only for slider velocity) and on the model by the three-way `rt` correspondence "
+            "(M1, text, M2 all identical between model and code)",
     }
-    level_text = ("Model of decoder and encoder compared three ways on every case (decoded map, encoded text character for character, re-decoded map); line-level inverse lemma in Lean. "
-                  "The property itself — preserved(decode(encode(decode x))) = preserved(decode x) for chronological inputs — is evaluated on the real code over the structured generator "
+    level_text = ("Lean 4 theorems over the decoder and encoder models: line level (a self-trimmed value, empty included, comes back from the end-trimmed `key: value` line; the integer codec "
+                  "is its own inverse), section level for all six record sections (the block encode_<section> writes, run through parse_<section> from the decoder's initial state, is accepted "
+                  "line by line and gives the section back on the preserved view: all ten metadata fields incl. positive ids; combo and custom colours with alpha 255; editor; difficulty "
+                  "inside the clamps; general with the encoder's SampleSet / CountdownOffset / SpecialStyle / flag rules; background file and breaks), and file level for those sections "
+                  "(records_roundtrip: encode, UTF-8 bytes, reader, framing, Beatmap decoder, finalisation), and line level for circles, spinners and hold notes (circle_rt, spinner_rt, "
+                  "hold_rt, samples_bank_info_rt, samples_rt). Everything that prints floats is proved for every lawful number codec. Sliders and timing points are not yet theorems. Model of decoder and encoder compared three ways on every case (decoded map, encoded text character for character, re-decoded map); "
+                  "the property itself — preserved(decode(encode(decode x))) = preserved(decode x) for chronological inputs — is evaluated on the real code over the structured generator "
                   "(all sections, four modes, versions 3..128, all object kinds, multi-segment paths, same-time timing groups, hostile-but-accepted numerics), field-level mutations of the "
                   "bundled maps and the bundled maps themselves.")
-    technique = "Lean 4 model of decoder+encoder with three-way correspondence; line-level inverse lemma; implementation-level round-trip oracle"
+    technique = "Lean 4 proof (line, section and record-file level round trips; law-dependent where floats are printed) + three-way correspondence + implementation-level round-trip oracle"
     trusted_base = [
         "Lean 4.33.0 kernel; axioms ⊆ {propext, Classical.choice, Quot.sound} per #print axioms",
         "hand-written decode + encode models tied to /repo by the `rt` differential of this run",
